@@ -78,7 +78,13 @@ def run(driver, case_file, max_report=10):
         n += 1
         ty = toks[2] if len(toks) > 2 else ""
         method = toks[3] if len(toks) > 3 else ""
+        if toks[0] == "safe" and len(toks) > 1:
+            # safe <ty>_xany_<op…> <c|a> <DIMS> <mask> …
+            ty = toks[1].split("_")[0]
+            method = toks[1].split("_xany_")[-1]
         key = "%s/%s/%s" % (toks[0], toks[1] if len(toks) > 1 else "", method)
+        if toks[0] == "safe" and len(toks) > 4:
+            key = "safe/%s/%s/mask%s" % (method, "xconst" if toks[2] == "c" else "xany", toks[4])
         hist[key] = hist.get(key, 0) + 1
         cg, ce = canon(got, ty, method), canon(e, ty, method)
         same = cg == ce
